@@ -86,7 +86,7 @@ def gen_globs(r, paths, n):
 
 
 def plan(tier, seed):
-    n = 60 if tier == "quick" else 1500
+    n = 300 if tier == "quick" else 4000
     return [{"i": i, "seed": seed, "n": 8} for i in range(n)]
 
 
